@@ -210,19 +210,22 @@ def scale(ctx, f, a, n, hint="S", forall=()):
     return sc, sf
 
 
-def congruence(ctx, f, g, n, hint="S", premise_checked=True, name="congruence"):
-    """(forall t. 0<=t<n -> f(t)=g(t)) -> Σ f = Σ g.  The premise is *checked* as an obligation first."""
+def congruence(ctx, f, g, n, hint="S", premise_checked=True, name="congruence", forall=(), where=None):
+    """(forall t. 0<=t<n -> f(t)=g(t)) -> Σ f = Σ g.  The premise is *checked* as an obligation first.
+    forall: outer z3 Int variables occurring in f/g over which premise and conclusion are generalised (restricted to `where`)."""
     nt = to_term(n)
     sf, sg = make(f, nt, hint), make(g, nt, hint)
     t = bv("t")
-    prem = z3.ForAll([t], z3.Implies(z3.And(t >= 0, t < nt), to_real(to_term(f(t))) == to_real(to_term(g(t)))))
+    guard = where if where is not None else z3.BoolVal(True)
+    prem = z3.ForAll([t] + list(forall), z3.Implies(z3.And(t >= 0, t < nt, guard), to_real(to_term(f(t))) == to_real(to_term(g(t)))))
+    concl = z3.Implies(z3.And(nt >= 0, guard), sf.t == sg.t)
     if premise_checked:
         ob = ctx.check(f"{ctx.unit_name}/lemma_premise:{name}", prem, kind="lemma_premise")
         if ob is not None and ob.status != "discharged":
             raise core.EndPath()   # reported through the premise; nothing downstream is checked on this path
-        ctx.assume(z3.Implies(nt >= 0, sf.t == sg.t), "lemma:congruence")
+        ctx.assume(_gen(forall, concl, [sf.t] if forall else None), "lemma:congruence")
     else:
-        ctx.assume(z3.Implies(z3.And(nt >= 0, prem), sf.t == sg.t), "lemma:congruence")
+        ctx.assume(z3.Implies(prem, _gen(forall, concl, [sf.t] if forall else None)), "lemma:congruence")
     return sf, sg
 
 
@@ -290,6 +293,63 @@ def member_le_sum(ctx, f, n, hint="S", name="member_le_sum"):
         raise core.EndPath()
     ctx.assume(z3.ForAll([k], z3.Implies(z3.And(k >= 0, k < nt), to_real(to_term(f(k))) <= sf.t)), "lemma:member_le_sum")
     return sf
+
+
+def permute(ctx, f, perm, perm_inv, n, hint="S", name="permute", forall=(), bijection_checked=True):
+    """perm is a bijection of [0, n) with inverse perm_inv  ->  Σ_{t<n} f(perm(t)) = Σ_{t<n} f(t).
+    The bijection premise is checked as an obligation first (unless the caller has it as an axiom); forall: outer variables."""
+    nt = to_term(n)
+    t = bv("t")
+    if bijection_checked:
+        prem = z3.ForAll([t], z3.Implies(z3.And(t >= 0, t < nt), z3.And(perm(t) >= 0, perm(t) < nt, perm_inv(perm(t)) == t,
+                                                                       perm_inv(t) >= 0, perm_inv(t) < nt, perm(perm_inv(t)) == t)))
+        ob = ctx.check(f"{ctx.unit_name}/lemma_premise:{name}", prem, kind="lemma_premise")
+        if ob is not None and ob.status != "discharged":
+            raise core.EndPath()
+    s_perm = make(lambda u: f(perm(u)), nt, hint + "p")
+    s_id = make(f, nt, hint)
+    ctx.assume(_gen(forall, z3.Implies(nt >= 0, s_perm.t == s_id.t), [s_perm.t] if forall else None), "lemma:permute")
+    return s_perm, s_id
+
+
+def prove_permute(ctx):
+    """Σ_{t<n} f(σ t) = Σ_{t<n} f(t) for every bijection σ of [0, n), by induction on n over *all* bijections: the step for σ on
+    [0, n+1) uses the hypothesis for the bijection τ of [0, n) that agrees with σ except at k = σ⁻¹(n), where τ(k) = σ(n)."""
+    R, I = z3.RealSort(), z3.IntSort()
+    f = z3.Function("f?perm", I, R)
+    sg, si = z3.Function("sigma?perm", I, I), z3.Function("sigma_inv?perm", I, I)
+    n = z3.Int("n_perm")
+    t = z3.Int("t?perm")
+    pre = "lemma/permute"
+    ctx.solver.push()
+    try:
+        ctx.solver.add(n >= 0)
+        N1 = n + 1
+        ctx.solver.add(z3.ForAll([t], z3.Implies(z3.And(t >= 0, t < N1), z3.And(sg(t) >= 0, sg(t) < N1, si(sg(t)) == t, si(t) >= 0, si(t) < N1, sg(si(t)) == t))))
+        k = si(n)
+        tau = lambda u: z3.If(u == k, sg(n), sg(u))            # noqa: E731
+        tau_inv = lambda v: z3.If(si(v) == n, k, si(v))        # noqa: E731
+        # base
+        s0p, s0 = make(lambda u: f(sg(u)), z3.IntVal(0), "P"), make(lambda u: f(u), z3.IntVal(0), "P")
+        ctx.assume(z3.And(s0p.at(z3.IntVal(0)) == 0, s0.at(z3.IntVal(0)) == 0), "sigma:definition")
+        ctx.check(f"{pre}/base", s0p.at(z3.IntVal(0)) == s0.at(z3.IntVal(0)), kind="lemma")
+        # the bijection used in the hypothesis
+        ctx.check(f"{pre}/step:tau_is_a_bijection_of_[0,n)",
+                  z3.ForAll([t], z3.Implies(z3.And(t >= 0, t < n), z3.And(tau(t) >= 0, tau(t) < n, tau_inv(tau(t)) == t,
+                                                                          tau_inv(t) >= 0, tau_inv(t) < n, tau(tau_inv(t)) == t))), kind="lemma")
+        s_sig, s_tau, s_id = make(lambda u: f(sg(u)), n, "P"), make(lambda u: f(tau(u)), n, "P"), make(lambda u: f(u), n, "P")
+        ctx.solver.add(s_tau.t == s_id.t)                                                        # induction hypothesis at (n, tau)
+        ctx.solver.add(s_sig.at(n + 1) == s_sig.at(n) + f(sg(n)), s_id.at(n + 1) == s_id.at(n) + f(n))   # definition of the sums
+        # sigma and tau differ only at k (if k < n): instance of the proved schema point_update
+        ctx.check(f"{pre}/step:sigma_and_tau_differ_only_at_k",
+                  z3.ForAll([t], z3.Implies(z3.And(t >= 0, t < n, t != k), f(sg(t)) == f(tau(t)))), kind="lemma")
+        ctx.solver.add(z3.Implies(z3.And(k >= 0, k < n), s_tau.t == s_sig.t - f(sg(k)) + f(tau(k))))
+        # if k == n then tau = sigma on [0, n): instance of the proved schema congruence
+        ctx.check(f"{pre}/step:tau_equals_sigma_if_k_is_n", z3.ForAll([t], z3.Implies(z3.And(t >= 0, t < n, k == n), f(sg(t)) == f(tau(t)))), kind="lemma")
+        ctx.solver.add(z3.Implies(k == n, s_tau.t == s_sig.t))
+        ctx.check(f"{pre}/step", s_sig.at(n + 1) == s_id.at(n + 1), kind="lemma")
+    finally:
+        ctx.solver.pop()
 
 
 def telescope(ctx, G, a, L, hint="S"):
